@@ -135,10 +135,29 @@ class Opaque:
     __bool__ = __eq__ = __ne__ = __hash__ = __len__ = __lt__ = __gt__ = _refuse  # type: ignore[assignment]
 
 
+class AwaitablePayload:
+    """An item that happens to be awaitable (a job, a future kept in a collection): payload, not something the user
+    handed over as an awaitable.  Being awaited is reported as a foreign action."""
+
+    def __init__(self, k: Any):
+        self.k = k
+
+    def __repr__(self) -> str:
+        return f"AwaitablePayload({self.k!r})"
+
+    def __await__(self) -> Any:
+        from .loop import CTX as _ctx
+        _ctx.foreign.append(f"the library awaited the payload item {self!r}")
+        return self
+        yield  # pragma: no cover
+
+
 def decode(v: Any) -> Any:
     """Decode a JSON-able raw value."""
     if isinstance(v, list):
         tag = v[0]
+        if tag == "Aw":
+            return AwaitablePayload(v[1])
         if tag == "Op":
             return Opaque(v[1])
         if tag == "Eq":
@@ -155,6 +174,8 @@ def decode(v: Any) -> Any:
             return [decode(x) for x in v[1:]]
         if tag == "T":
             return tuple(decode(x) for x in v[1:])
+        if tag == "Dc":  # a dict from alternating keys and values
+            return {decode(k): decode(x) for k, x in builtins.zip(v[1::2], v[2::2])}
         if tag == "It":  # a one-shot, UNSIZED iterator over the decoded members (no len(), no indexing)
             return builtins.iter(tuple(decode(x) for x in v[1:]))
         if tag == "Gn":  # a generator over the decoded members
